@@ -2,7 +2,8 @@
 SPECIFICATION Spec
 CONSTANTS
   MaxSig = 1
-  Devs = {"ErrDefaultsIgnore", "FailOpenBroken", "NoBodySubset"}
+  Devs = {"ErrDefaultsIgnore", "FailOpenBroken", "NoBodySubset", "ForgedArKept"}
   Gen = FALSE
+  DocSubset = "no"
 INVARIANTS AsIsSatisfiesProp
 CHECK_DEADLOCK FALSE
